@@ -396,6 +396,39 @@ def make_dispatching(log):
     return type("RecDispatch", (DispatchingVisitor,), ns)()
 
 
+def shared_child_lists(root):
+    """Mutable child lists that two different (node, attribute) slots hold in common: an in-place edit of one
+    node would show up in the other."""
+    from py_gql.lang import ast as A
+
+    owners = {}
+    shared = []
+    seen_nodes = set()
+
+    def rec(node, path):
+        if id(node) in seen_nodes:
+            return
+        seen_nodes.add(id(node))
+        for a in node._props():
+            v = getattr(node, a)
+            if isinstance(v, list):
+                slot = (path, a)
+                if id(v) in owners and owners[id(v)] != slot:
+                    shared.append((owners[id(v)], slot))
+                owners.setdefault(id(v), slot)
+                for i, x in enumerate(v):
+                    if isinstance(x, A.Node):
+                        rec(x, path + ((a, i),))
+            elif isinstance(v, A.Node):
+                rec(v, path + ((a, None),))
+
+    rec(root, ())
+    return shared, owners
+
+
+_LISTS_OF_EARLIER_DOCUMENTS = {}
+
+
 def check_document(ctx, rng, parse_fn, text, flags, cls):
     from py_gql.lang.visitor import ASTVisitor, ChainedVisitor
     from py_gql.utilities import ast_transforms as T
@@ -415,6 +448,21 @@ def check_document(ctx, rng, parse_fn, text, flags, cls):
         ctx.violation("noop:returns-other-node", witness, "")
     if normalize(tree.to_dict()) != before:
         ctx.violation("noop:document-changed", witness, "")
+    # edits stay local only if nodes do not share their (mutable) child lists, neither inside the visited
+    # document nor with a document visited earlier in this process
+    shared_before = shared_child_lists(parse_fn(text, **flags))[0]
+    shared_after, owners = shared_child_lists(tree)
+    ctx.count("child_lists_checked_for_sharing", len(owners))
+    if shared_after and not shared_before:
+        ctx.violation("aliasing:child-list-shared-between-nodes-after-visit", witness, repr(shared_after[:2])[:300])
+    else:
+        earlier = [k for k in owners if k in _LISTS_OF_EARLIER_DOCUMENTS]
+        if earlier:
+            ctx.violation("aliasing:child-list-shared-with-an-earlier-document-after-visit", witness,
+                          "%r / %r" % (owners[earlier[0]], _LISTS_OF_EARLIER_DOCUMENTS[earlier[0]][0]))
+    if len(_LISTS_OF_EARLIER_DOCUMENTS) < 20000:
+        for k, slot in owners.items():
+            _LISTS_OF_EARLIER_DOCUMENTS[k] = (slot, tree)       # the tree is kept alive so that ids stay unique
     visited = check_noop_log(ctx, infos, order, log, witness)
     if nn >= 10:
         ctx.mark_nontrivial([text, "noop"])
